@@ -176,7 +176,7 @@ class ModelClient:
         return sorted(list(set(raw_aggregate_list)), key=lambda x: AGGREGATE_ORDER.index(x))
 
     def get_national_summary_votes_estimates(self, nat_sum_data_dict=None, base_to_add=0, alphas=[0.99]):
-        if self.model is None:
+        if self.model is None or self.results_handler is None:
             raise ModelClientException(
                 "Must call the get_estimands() method before get_national_summary_votes_estimates()."
             )
@@ -212,6 +212,9 @@ class ModelClient:
         This function assumes that election_id is valid and in the format <date>_<state_postal>_<race_type>
         """
         LOG.info("Getting estimates: %s, %s, %s", election_id, office, estimands)
+        # the results of an earlier run end here: if this run fails, a later national summary must not combine them with
+        # the election, the model and the save settings of this one
+        self.results_handler = None
         # If current_data isn't already a dataframe, convert to df
         if not isinstance(current_data, pd.DataFrame):
             # First element of current_data is list of column values
